@@ -11,6 +11,8 @@ let () =
   | _ :: "lspdoc" :: _ -> L_lspdoc.run ()
   | _ :: "peg" :: _ -> L_peg.run ()
   | _ :: "resp" :: _ -> L_resp.run ()
+  | _ :: "eval" :: _ -> L_eval.run ()
+  | _ :: "evallex" :: _ -> L_eval.run_lexical ()
   | _ ->
       prerr_endline "usage: oalmodel <layer>";
       exit 2
